@@ -30,7 +30,7 @@ var FamilyNames = []string{
 	"self", "wide-kids", "wide-filters", "deep-array", "deep-dict", "deep-content",
 	"acroform-loop", "xobject-loop", "type3-loop", "action-chain", "pattern-loop",
 	"parent-loop", "contents-array", "colorspace-chain", "huge-offsets",
-	"nest-function", "nest-action", "nest-colorspace", "presteps-chain", "objstm-filter",
+	"nest-function", "nest-action", "nest-colorspace", "presteps-chain", "objstm-filter", "xref-index-sum",
 }
 
 // wiringFamily builds a large wiring of one of the model's walkers and
@@ -418,6 +418,8 @@ func (fam *Family) build() ([]byte, error) {
 		return fam.buildSections(n)
 	case "objstm-filter":
 		return fam.buildObjStmFilter(n), nil
+	case "xref-index-sum":
+		return fam.buildXRefIndexSum(n), nil
 	case "huge-offsets":
 		return fam.buildHugeOffsets(n), nil
 	default:
@@ -593,4 +595,60 @@ func (fam *Family) buildObjStmFilter(n int) []byte {
 	}
 	sx := a.xrefStream(9, ents, "/Root 1 0 R", fam.XS)
 	return a.finish(sx)
+}
+
+// buildXRefIndexSum: a cross-reference stream whose /Index has many
+// subsections, each within /Size, whose sizes add up past 2^31 or 2^32 (the
+// sum is what the entry budget 8192 + 32 per raw byte is checked against: a
+// sum kept in 32 bits wraps to a small number), with a narrow /W and a body of
+// zeros that flate shrinks a thousandfold: one entry would be made per decoded
+// byte.  Variants by size: repetitions and remainders; Cyc: a body of 16 MiB
+// instead of 1 MiB; XS: /W [0 1 0] (every entry in use) instead of [1 0 0].
+func (fam *Family) buildXRefIndexSum(n int) []byte {
+	const size = 1 << 24
+	type sub struct{ start, n int }
+	var subs []sub
+	rep := func(k int, s sub) {
+		for i := 0; i < k; i++ {
+			subs = append(subs, s)
+		}
+	}
+	switch n % 8 {
+	case 0:
+		rep(256, sub{0, size}) // 2^32
+	case 1:
+		rep(512, sub{0, size}) // 2^33
+	case 2:
+		rep(128, sub{0, size}) // 2^31
+	case 3:
+		rep(256, sub{0, size})
+		subs = append(subs, sub{0, 7}) // 2^32 + 7
+	case 4:
+		rep(255, sub{0, size})
+		rep(2, sub{size / 2, size / 2}) // 2^32 from unequal parts
+	case 5:
+		rep(1024, sub{1, size - 1}) // 2^34 - 1024
+	case 6:
+		rep(2, sub{0, size}) // 2^25: over the budget without any wrap
+	default:
+		rep(4096, sub{size - 1<<20, 1 << 20}) // 2^32 from small subsections at the top
+	}
+	decoded := 1 << 20
+	if fam.Cyc {
+		decoded = 1 << 24
+	}
+	w := "[1 0 0]"
+	if fam.XS {
+		w = "[0 1 0]"
+	}
+	a := newAsm("1.7")
+	a.obj(1, "<< /Type /Catalog /Pages 2 0 R >>")
+	a.obj(2, "<< /Type /Pages /Kids [] /Count 0 >>")
+	var idx strings.Builder
+	for _, s := range subs {
+		fmt.Fprintf(&idx, "%d %d ", s.start, s.n)
+	}
+	p := a.pos()
+	a.stream(3, fmt.Sprintf("/Type /XRef /Size %d /W %s /Index [%s] /Root 1 0 R /Filter /FlateDecode", size, w, idx.String()), "", deflate(make([]byte, decoded)))
+	return a.finish(p)
 }
